@@ -1,0 +1,17 @@
+//go:build verif
+
+package pow
+
+import "github.com/iotaledger/iota.go/consts"
+
+// Verification hooks (build tag verif).
+
+// VerifCheckStateTrits exposes checkStateTrits.
+func VerifCheckStateTrits(l, h *[consts.HashTrinarySize]uint, n uint) int {
+	return checkStateTrits(l, h, n)
+}
+
+// VerifTrailingZeros exposes trailingZeros.
+func VerifTrailingZeros(powDigest []byte, nonce uint64) int {
+	return trailingZeros(powDigest, nonce)
+}
